@@ -111,6 +111,12 @@ func (u *upstream) Serve() {
 	u.clientsMu.Lock()
 	clients := u.loadClients()
 	u.clientsMu.Unlock()
+	// ask all of them to quit first: the reader of one client may be parked
+	// handing a redirected request to another one, it is only released when
+	// that one quits.
+	for _, c := range clients {
+		c.doQuit()
+	}
 	for _, c := range clients {
 		c.Stop()
 	}
@@ -763,10 +769,14 @@ func (c *client) drainPendingRequests() {
 	}
 }
 
-func (c *client) Stop() {
+func (c *client) doQuit() {
 	c.quitOnce.Do(func() {
 		close(c.quit)
 	})
+}
+
+func (c *client) Stop() {
+	c.doQuit()
 	c.conn.Close()
 	<-c.done
 	c.filter.Reset()
